@@ -232,6 +232,10 @@ def run_world(res, desc, tmpdir):
             res.flags["snapshot with a live CMA-ES deme"] += 1
         if any(getattr(d, "_hibernating", False) for _, d in tree.all_demes):
             res.flags["snapshot with a hibernating deme"] += 1
+        if len(tree.levels) >= 3:
+            par = [d.id.rsplit("/", 1)[0] for d in tree.levels[2]]
+            if any(par[i] != par[i + 1] and par[i] in par[i + 2 :] for i in range(len(par) - 2)):
+                res.flags["snapshot with interleaved level-2 demes"] += 1
         if len(res.samples) < 2 and k == 2:
             res.samples.append({"desc": desc, "snapshot_at": k, "demes": len(tree.all_demes), "loaded_continued_steps": steps, "summary_head": before["summary"][:200]})
         if live_stepped:
@@ -268,6 +272,10 @@ def worlds(tier, seed):
                 if k % 5 == 0:
                     d["gsc"] = {"kind": "evals", "n": 70}
                 out.append(d)
+    # three levels, two long-lived middle demes that sprout alternately: the ORDER of the demes on a level is part of the tree
+    for j, eng in enumerate([("SEA", "DE", "SEA"), ("DE", "SEA", "SHADE"), ("LHS", "GA", "DEd")]):
+        out.append(dict(engines=list(eng), gens=1, Mh=8, seed=s + j, hib=False, lambda_obj=bool(j % 2), obj="twofunnel", maximize=bool(j % 2),
+                        sprout={"kind": "simple", "L": 3, "far": 0.02}, lsc=[None, None, {"kind": "metaepoch", "m": 1}]))
     # objective undefined (NaN) on half of the box: comparisons among NaN individuals draw from Python's `random`
     for j, eng in enumerate([("SEA", "DE"), ("DE", "SHADE"), ("LHS", "SEAX"), ("GA",), ("SHADE", "SOB")]):
         for hib in (False, True):
@@ -294,7 +302,7 @@ def run_unit(unit):
 def finish(res, tier):
     if len(res.nontrivial) < 60:
         raise Vacuous("few non-trivial snapshot points")
-    for f in ("snapshot with a live CMA-ES deme", "snapshot with a hibernating deme", "snapshot at the final boundary", "restored and live tree made the same next metaepoch"):
+    for f in ("snapshot with a live CMA-ES deme", "snapshot with a hibernating deme", "snapshot at the final boundary", "restored and live tree made the same next metaepoch", "snapshot with interleaved level-2 demes"):
         if res.flags[f] < 5:
             raise Vacuous(f"'{f}' seen {res.flags[f]} times")
     return {"snapshot_points": res.executions, "exhaustive": True}
